@@ -1735,7 +1735,38 @@ def s5_close(a, b, exact):
     return abs(a - b) <= tol * max(1.0, abs(a), abs(b))
 
 
-def s5_check(ctx, label, build_py, call_py, thunk, target_inputs, sigma, oracle_at, rng, wit, exact, tie=None):
+@contextlib.contextmanager
+def record_gaussian_stages(log):
+    """Run-time wrappers (no change to /repo) around the four eager branches of Gaussian.eager_subs: which branch handled
+    which keys, in call order."""
+    names = ["_eager_subs_var", "_eager_subs_int", "_eager_subs_real", "_eager_subs_affine"]
+    # (the parametrised classes Gaussian[...] copy the origin's __dict__ when they are created: patch each of them)
+    classes, todo = [], [Gaussian]
+    while todo:
+        c = todo.pop()
+        classes.append(c)
+        todo.extend(c.__subclasses__())
+    saved = [(c, n, c.__dict__[n]) for c in classes for n in names if n in c.__dict__]
+
+    def wrap(n, fn):
+        def w(self, subs, remaining_subs):
+            log.append((n[len("_eager_subs_"):], [k for k, _ in subs]))
+            return fn(self, subs, remaining_subs)
+        return w
+    for c, n, fn in saved:
+        setattr(c, n, wrap(n, fn))
+    try:
+        yield
+    finally:
+        for c, n, fn in saved:
+            setattr(c, n, fn)
+
+
+GKIND = {"array": "real", "tensor": "real", "rename": "var", "affine": "affine", "square": "lzy", "exp": "lzy",
+         "int": "int", "int-rename": "var", "int-tensor": "int"}
+
+
+def s5_check(ctx, label, build_py, call_py, thunk, target_inputs, sigma, oracle_at, rng, wit, exact, tie=None, gdec=None):
     """Run one substitution route and compare with the oracle over the whole free space (ints) x sample reals."""
     # expected inputs: target's unsubstituted inputs + inputs of the values
     exp = OrderedDict((k, d) for k, d in target_inputs.items() if k not in sigma)
@@ -1744,8 +1775,21 @@ def s5_check(ctx, label, build_py, call_py, thunk, target_inputs, sigma, oracle_
             if exp.setdefault(n, d) != d:
                 ctx.count("S5:ill-typed")
                 return
+    stages = []
     try:
-        r = thunk()
+        if gdec is not None:
+            with record_gaussian_stages(stages):
+                try:
+                    r = thunk()
+                finally:
+                    # the names-level decision of Gaussian.eager_subs vs the Lean model `gDecide`
+                    order, inputs_ = gdec
+                    sw = [[Q(k), (["var", Q(list(sigma[k].inputs)[0])] if GKIND[sigma[k].kind] == "var" else GKIND[sigma[k].kind])]
+                          for k in order]
+                    ctx.extra.setdefault("_s5_gdec", []).append(
+                        (f"C04 gdecide {sx([Q(n) for n in inputs_])} {sx(sw)}", list(stages), dict(wit, order=list(order))))
+        else:
+            r = thunk()
     except DECLINE as ex:
         ctx.count(f"S5:{label}:declined:{type(ex).__name__}")
         ctx.case()
@@ -1857,10 +1901,12 @@ def s5_gaussian(ctx, rng):
             s5_check(ctx, "gaussian-Subs-permuted", build_py, f"Subs(g, {pairs_py})",
                      lambda perm=perm: Subs(g, tuple((k, sigma[k].f) for k in perm)),
                      target_inputs, sigma, oracle_for(sigma), rng, dict(wit, order=list(perm)), exact,
-                     tie=dict(batch=batch, reals=reals, shapes=shapes, w=w, P=P, order=list(perm)) if tieable else None)
+                     tie=dict(batch=batch, reals=reals, shapes=shapes, w=w, P=P, order=list(perm)) if tieable else None,
+                     gdec=(list(perm), list(batch) + list(reals)))
         kw_py = "g(**{" + ", ".join(f"{k!r}: {sigma[k].py}" for k in keys) + "})"
         s5_check(ctx, "gaussian-call", build_py, kw_py, lambda: g(**{k: v.f for k, v in sigma.items()}),
-                 target_inputs, sigma, oracle_for(sigma), rng, wit, exact)
+                 target_inputs, sigma, oracle_for(sigma), rng, wit, exact,
+                 gdec=([k for k in list(batch) + list(reals) if k in sigma], list(batch) + list(reals)))
     # ---------- chained f(a)(b): a non-affine lazy first step, then grounding; versus fused
     if len(reals) >= 2:
         k0 = rng.choice(reals)
@@ -2015,6 +2061,99 @@ def s6_compare(ctx, label, r, expected_names, oracle, rng, wit, py):
     return True
 
 
+def s6_constant_lean(ctx, cobj, sig, r, wit):
+    """Queue the three-way comparison for one Constant case: impl vs Lean `denote` (values, gate) vs the executable model of
+    Constant.eager_subs (`constsubs`: new const inputs exactly, value table)."""
+    from funsor.constant import Constant
+    vals = OrderedDict()
+    for k, v in sig.items():
+        d = cobj.inputs[k]
+        vals[k] = v if isinstance(v, Funsor) else (Variable(v, d) if isinstance(v, str) else Number(v, d.dtype))
+    try:
+        arg_wire = ser.to_wire(cobj.arg)
+        sig_wire = [[Q(k), ser.to_wire(v)] for k, v in vals.items()]
+    except ser.Unsupported:
+        ctx.count("S6:constant:lean:beyond-wire")
+        return
+    exp = OrderedDict((k, d) for k, d in cobj.inputs.items() if k not in vals)
+    for v in vals.values():
+        for n_, d in v.inputs.items():
+            if exp.setdefault(n_, d) != d:
+                ctx.count("S6:constant:lean:ill-typed")
+                return
+    if any(d.shape for d in exp.values()):
+        return
+    sz = lambda d: 0 if d.dtype == "real" else int(d.size)
+    ins = sorted((k, int(d.size)) for k, d in exp.items() if d.dtype != "real")
+    renv = {k: 0.5 for k, d in exp.items() if d.dtype == "real"}
+    arg_ins = OrderedDict((k, d) for k, d in cobj.arg.inputs.items() if k not in vals)
+    for k, v in vals.items():
+        if k in cobj.arg.inputs:
+            arg_ins.update(v.inputs)
+    consts_w = [[Q(k), sz(d)] for k, d in cobj.const_inputs.items()]
+    vins_w = [[Q(k), [[Q(n_), sz(d)] for n_, d in v.inputs.items()]] for k, v in vals.items() if k in cobj.const_inputs]
+    impl_consts = [(k, sz(d)) for k, d in r.const_inputs.items()] if isinstance(r, Constant) else []
+    envw = sx(ser.env_wire(renv))
+    q = ctx.extra.setdefault("_s6_const", [])
+    q.append((f"C04 denote {sx(['subs', arg_wire, sig_wire])} {sx(ser.ins_wire(ins))} {envw}", "spec", wit, r, ins, renv, None))
+    q.append((f"C04 constsubs {sx(consts_w)} {sx([[Q(k), sz(d)] for k, d in arg_ins.items()])} {sx(vins_w)} {sx(arg_wire)} {sx(sig_wire)} "
+              f"{sx(ser.ins_wire(ins))} {envw}", "model", wit, r, ins, renv, impl_consts))
+
+
+def s6_constant_finish(ctx):
+    q = ctx.extra.pop("_s6_const", [])
+    if not q:
+        return
+    answers = ctx.driver.ask([t[0] for t in q])
+    spec = None
+    for (req, kind, wit, r, ins, renv, impl_consts), ans in zip(q, answers):
+        if kind == "spec":
+            spec = ser.parse_table(ans)
+            if spec is None or any(c is None for c in spec):
+                ctx.count("S6:constant:lean:spec-undefined")
+                spec = None
+                continue
+            try:
+                st, cells = value_over(r, ins, renv)
+            except (KeyError, ValueError) as ex:
+                ctx.fail("input", "C04.S6.constant.inputs", witness=wit, expected=str(ins), got=str(ex))
+                continue
+            except DECLINE:
+                continue
+            if st == "value" and cells is not None:
+                ok, bad = tables_match(cells, spec)
+                if not ok:
+                    ctx.fail("input", "C04.S6.constant.value-vs-denote", witness=wit, expected=str(spec)[:300], got=str(cells)[:300])
+                else:
+                    ctx.count("S6:constant:impl-eq-spec")
+            continue
+        if not ans.startswith("ok "):
+            ctx.infra_errors.append(f"driver: {ans[:200]} for {wit}")
+            continue
+        t = parse_sx("(" + ans[3:] + ")")
+        m_consts = [(str(k), int(v)) for k, v in t[0]]
+        tab = ser.parse_table("ok " + sx_back(t[1]))
+        if spec is not None and tab is not None:
+            if _tables_same(tab, spec):
+                ctx.count("S6:constant:model-eq-spec")
+            else:
+                ctx.fail("correspondence", "C04.S6.constant.model-vs-spec (const_eager_subs_sem echo)", witness=wit,
+                         expected=str(spec)[:300], got=str(tab)[:300])
+        if m_consts == impl_consts:
+            ctx.count("S6:constant:const-inputs-identical")
+            ctx.case(nontrivial_key=("S6.constant-lean", repr(wit)))
+        else:
+            ctx.fail("correspondence", "C04.S6.constant.const-inputs (Constant.eager_subs model)", witness=wit,
+                     expected=str(m_consts), got=str(impl_consts))
+
+
+def sx_back(t):
+    """parse_sx output -> wire text."""
+    if isinstance(t, list):
+        return "(" + " ".join(sx_back(x) for x in t) + ")"
+    return '"' + str(t) + '"' if isinstance(t, Q) else str(t)
+
+
 def run_s6(ctx):
     from funsor.terms import Independent, Scatter
     from funsor.constant import Constant
@@ -2073,10 +2212,11 @@ def run_s6(ctx):
             continue
         if any(n_ not in r.inputs for n_ in expn):
             ctx.count("S6:constant:const-input-of-a-value-dropped(provenance lost, value unaffected)")
+        s6_constant_lean(ctx, c0, sig, r, {"stream": "S6.constant-collide", "sigma": {k: str(v) for k, v in sig.items()}})
         s6_compare(ctx, "constant", r, expn, lambda e: float(argd0[e["j"]]), rng,
                    {"stream": "S6.constant-collide", "sigma": {k: str(v) for k, v in sig.items()}},
                    hdr + f"# Constant(OrderedDict(a=Real, b=Real), Tensor({argd0.tolist()}, j))(**{ {k: str(v) for k, v in sig.items()} })\nFAILS = True\n")
-    for trial in range(30):
+    for trial in range(30 if ctx.tier == "quick" else 300):
         consts = OrderedDict()
         for nm in rng.sample(["a", "b", "c"], rng.choice([1, 2, 3])):
             consts[nm] = rng.choice([Bint[2], Bint[3], Real])
@@ -2117,8 +2257,10 @@ def run_s6(ctx):
         lost = sorted(n_ for n_ in exp_names if n_ not in r.inputs)
         if lost:
             ctx.count("S6:constant:const-input-of-a-value-dropped(provenance lost, value unaffected)")
+        s6_constant_lean(ctx, f, sig, r, wit)
         s6_compare(ctx, "constant", r, exp_names, lambda e, jsub=jsub: float(argd[jsub if jsub is not None else e["j"]]), rng, wit,
                    hdr + f"# Constant({dict(consts)}, Tensor({argd.tolist()}, j))(**{wit['sigma']})\nFAILS = True\n")
+    s6_constant_finish(ctx)
     # ---- MarkovProduct (lazy) and Scatter (lazy): renamings are right; other shapes are the regions of two findings
     trans_d = _dyarr(rng, (2, 2, 2), 0, 4)
     trans = Tensor(trans_d, OrderedDict(t=Bint[2], a=Bint[2], b=Bint[2]))
@@ -2491,6 +2633,28 @@ def run_s5(ctx, n, use_lean=True):
             s5_gaussian(ctx, ctx.rng)
         else:
             s5_delta(ctx, ctx.rng)
+    gd = ctx.extra.pop("_s5_gdec", [])
+    if use_lean and gd:
+        for (req, stages, wit), ans in zip(gd, ctx.driver.ask([t[0] for t in gd])):
+            if not ans.startswith("ok "):
+                ctx.infra_errors.append(f"driver: {ans[:200]} for {wit}")
+                continue
+            t = parse_sx(ans[3:])
+            model = [("var" if str(st[0]) == "var-conflict" else str(st[0]), [str(k) for k in st[1]]) for st in t
+                     if str(st[0]) in ("var", "var-conflict", "int", "real", "affine")]
+            # (the terminal lazy stage builds a reflect Subs, whose alpha-mangling of its bound keys is one more pure renaming
+            #  of the Gaussian: `reflect` -> _alpha_mangle -> substitute -> Gaussian.eager_subs with Variables)
+            for st in t:
+                if str(st[0]) == "lazy" and st[1]:
+                    model.append(("var", [str(k) for k in st[1]]))
+            # (after a name conflict the code raises: nothing follows)
+            if any(str(st[0]) == "var-conflict" for st in t):
+                model = model[:1 + [str(st[0]) for st in t].index("var-conflict")]
+            got = [(b, list(ks)) for b, ks in stages]
+            if model == got:
+                ctx.count("S5:gdecide:branch-chain-identical:" + ">".join(b for b, _ in got))
+            else:
+                ctx.fail("correspondence", "C04.S5.gaussian-eager_subs-branches (gDecide)", witness=wit, expected=str(model), got=str(got))
     tie = ctx.extra.pop("_s5_tie", [])
     if not use_lean or not tie:
         return
@@ -2610,7 +2774,10 @@ def correspond(ctx):
                            "C14), Independent.eager_subs and the rename/decline decision of MarkovProduct/Scatter.eager_subs have executable Lean "
                            "models tied in stream S7 (values vs the shared denote; decisions exactly); Gaussian._eager_subs_real is tied through "
                            "`gsubs` (S5); the other Gaussian branches (affine, int, var) and the values of MarkovProduct/Scatter/Constant are checked "
-                           "against python oracles only (S5/S6: spec-only)")
+                           "against python oracles only (S5/S6: spec-only); Constant.eager_subs has an executable model (`constsubs`: new const inputs "
+                           "exactly + value vs denote, three-way in S6) and the branch chain Gaussian.eager_subs takes (var > int > real > affine > lazy, "
+                           "observed through run-time wrappers of the four _eager_subs_* methods) is compared exactly with the names-level model "
+                           "`gDecide` on every S5 single-step case — the VALUES of the Gaussian branches other than real stay C12's")
 
 
 def search(ctx, broken):
